@@ -382,8 +382,11 @@ def _do_shard(job, so, deps, compile_timeout, run_timeout, single_round=False):
             elif l.startswith('F '):
                 _, k, m = l.split(' ', 2)
                 results[idx2[int(k)]].fails.append(m)
+        if rc == -9:
+            # the harness binary exceeded its wall-clock cap: that is a capacity problem of the check, never a verdict about educe
+            raise MachineryError('shard binary %s exceeded the run cap of %ss' % (out, run_timeout))
         if rc != 0:
-            # the binary died (abort/timeout): attribute to the first case without an R line
+            # the binary died (abort / segfault): attribute to the first case without an R line
             missing = [k for k, i in enumerate(live) if job.cases[i].run and k not in seen]
             if not missing:
                 raise MachineryError('shard binary %s failed rc=%s after all cases reported: %s' % (out, rc, se[-400:]))
